@@ -37,6 +37,10 @@ pub enum Case {
         combine: Combine,
         /// use CodesStats<3,5,2,4,6> instead of the default parameters
         small_params: bool,
+        /// further non-default parameter sets (overrides `small_params` when non-zero): 1 = <2,40,3,2,1>
+        /// (more Golomb moduli than 2^RICE), 2 = <0,0,0,0,0> (no parameterised code tracked), 3 = <1,1,1,1,1>
+        #[serde(default)]
+        params: u8,
     },
     /// `threads` OS threads write their share of the items through one shared wrapper
     Threads { items: Vec<(u64, u32)>, threads: u8 },
@@ -47,7 +51,7 @@ pub const DEF: PropDef = PropDef {
     rule: "Cases are multisets of (value, multiplicity) pairs (small values, values around powers of two, large values; built with a running \
 budget so that every tracked total stays below 2^62, D13), a random split into 1..=8 partial statistics, a way of combining them (add, +=, +, \
 sum), a way of observing (update one by one, update_many, CodesStatsWrapper on writes, CodesStatsWrapper on reads), default or non-default \
-const parameters (CodesStats<3,5,2,4,6>). Oracle: per tracked code the total equals the sum of reference lengths (u128) with the index mapping \
+const parameters (CodesStats<3,5,2,4,6>, <2,40,3,2,1> with more Golomb moduli than 2^RICE, <0,0,0,0,0>, <1,1,1,1,1>). Oracle: per tracked code the total equals the sum of reference lengths (u128) with the index mapping \
 written from the documentation (zeta[i] = zeta_{i+1}, golomb[i] = b i+1, exp_golomb[i] = k i, rice[i] = log2_b i, pi[i] = k i+2), total = number \
 of elements, merging == observing the union, best_code() returns a code whose reference total is the minimum over all tracked totals with that \
 minimum as cost, and actually encoding the multiset with the returned Codes value through the library's writer produces exactly that many bits. \
@@ -269,11 +273,13 @@ fn seq<const Z: usize, const G: usize, const E: usize, const RR: usize, const P:
 pub fn check_case(c: &Case, _env: &Env) -> CheckResult {
     let mut o = Outcome::new();
     match c {
-        Case::Seq { items, assign, parts, via, combine, small_params } => {
-            if *small_params {
-                seq::<3, 5, 2, 4, 6>(items, assign, *parts, *via, *combine)?;
-            } else {
-                seq::<10, 20, 10, 10, 10>(items, assign, *parts, *via, *combine)?;
+        Case::Seq { items, assign, parts, via, combine, small_params, params } => {
+            match (*params, *small_params) {
+                (1, _) => seq::<2, 40, 3, 2, 1>(items, assign, *parts, *via, *combine)?,
+                (2, _) => seq::<0, 0, 0, 0, 0>(items, assign, *parts, *via, *combine)?,
+                (3, _) => seq::<1, 1, 1, 1, 1>(items, assign, *parts, *via, *combine)?,
+                (_, true) => seq::<3, 5, 2, 4, 6>(items, assign, *parts, *via, *combine)?,
+                _ => seq::<10, 20, 10, 10, 10>(items, assign, *parts, *via, *combine)?,
             }
             if *parts > 1 {
                 o.nt("several_partials");
@@ -284,8 +290,14 @@ pub fn check_case(c: &Case, _env: &Env) -> CheckResult {
             if items.iter().any(|x| x.0 >= 1 << 32) {
                 o.nt("value_ge_2^32");
             }
-            if *small_params {
+            if *small_params || *params != 0 {
                 o.label("non_default_const_parameters");
+            }
+            match *params {
+                1 => o.label("params_2_40_3_2_1"),
+                2 => o.label("params_all_zero"),
+                3 => o.label("params_all_one"),
+                _ => {}
             }
         }
         Case::Threads { items, threads } => {
@@ -356,7 +368,7 @@ pub fn gen_case(s: &mut Src) -> Case {
     let items = gen_items(s, 24, max_mult);
     let parts = s.range(1, 8) as u8;
     let assign = (0..items.len()).map(|_| s.u8()).collect();
-    Case::Seq { items, assign, parts, via, combine: s.pick(&[Combine::Add, Combine::AddAssign, Combine::Plus, Combine::Sum]), small_params: s.below(4) == 0 }
+    Case::Seq { items, assign, parts, via, combine: s.pick(&[Combine::Add, Combine::AddAssign, Combine::Plus, Combine::Sum]), small_params: s.below(4) == 0, params: [0u8, 0, 0, 0, 1, 1, 2, 3][s.below(8)] }
 }
 
 fn run(ctx: &Ctx, env: &Env) -> Stats {
@@ -378,7 +390,7 @@ fn run(ctx: &Ctx, env: &Env) -> Stats {
         }
         for (k, v) in vals.into_iter().enumerate() {
             let via = if k % 2 == 0 { Via::Update } else { Via::UpdateMany };
-            part.check(&Case::Seq { items: vec![(v, 1 + (k % 3) as u32)], assign: vec![0], parts: 1, via, combine: Combine::Add, small_params: k % 5 == 0 }, &f);
+            part.check(&Case::Seq { items: vec![(v, 1 + (k % 3) as u32)], assign: vec![0], parts: 1, via, combine: Combine::Add, small_params: k % 5 == 0, params: [0u8, 0, 1, 0, 2, 0, 3][k as usize % 7] }, &f);
         }
         part.finish()
     }));
